@@ -139,3 +139,23 @@ class Gen:
 
 def random_doc(rng, **kw):
     return Gen(rng, **kw).document()
+
+
+def group_soup(rng):
+    """several sibling / nested groups with awkward opacities whose children are partly invisible: exercises the
+    interplay of group removal, opacity push-down, rounding and pruning"""
+    OPS = ['0.7', '0.3', '0.5', '0.9', '0.1', '0.35']
+    def child():
+        x, y = rng.randint(0, 12), rng.randint(0, 12)
+        k = rng.random()
+        o = f' opacity="{rng.choice(OPS)}"' if rng.random() < 0.4 else ''
+        if k < 0.55: return f'<rect x="{x}" y="{y}" width="{rng.randint(3, 8)}" height="{rng.randint(3, 8)}" fill="{rng.choice(COL)}"{o}/>'
+        if k < 0.7: return f'<rect x="{x}" y="{y}" width="5" height="5" fill="{rng.choice(COL)}" opacity="0"/>'
+        if k < 0.8: return f'<rect x="{x}" y="{y}" width="5" height="5" fill="{rng.choice(COL)}" display="none"/>'
+        if k < 0.9: return f'<path d="M{x},{y}" fill="{rng.choice(COL)}"{o}/>'
+        return f'<path d="M{x},{y} l0.001,0 l0,0.001 z" fill="{rng.choice(COL)}"{o}/>'
+    def group(depth):
+        kids = ''.join(group(depth + 1) if depth < 2 and rng.random() < 0.2 else child() for _ in range(rng.randint(1, 4)))
+        return f'<g opacity="{rng.choice(OPS + ["0", "1"])}">{kids}</g>'
+    body = ''.join(group(0) if rng.random() < 0.8 else child() for _ in range(rng.randint(2, 4)))
+    return f'<svg xmlns="{SVGNS}" viewBox="0 0 20 20">{body}</svg>'
